@@ -86,6 +86,130 @@ let run_result_s = function
 let script_s (sc : act list) : string =
   String.concat "." (List.map (function AWrite c -> "x" ^ hex_of_bytes c | AFault -> "FAULT") sc)
 
+
+(* ---- type descriptors and values of the show model (C05), in the syntax of
+   harness/cmd/h_render/showzoo.go zdesc / zenc (the one of the show engine):
+     ty    ::= L<kind>.<flags> | A<fl>(ty) | S<fl>(ty) | P<fl>(ty) | M<fl>(ty,ty)
+             | T<fl>(field;...) | R<n>         field ::= <0|1>:<hexname>:<hextag>:ty
+     value ::= n | b0 | b1 | i<int> | u<nat> | f<bits> | c<re>_<im> | s<hex>. | o | z
+             | y<hex>. | q(v,...) | p(v) | m(k:v,...) | t(v,...) | d<id> | I(ty|v)   *)
+let zten = n_of_int 10
+let zn_of_dec (s : string) : n =
+  let acc = ref N0 in
+  String.iter (fun c -> acc := N.add (N.mul !acc zten) (n_of_int (Char.code c - 48))) s;
+  !acc
+type zst = { zs : string; mutable zp : int }
+let zpeek st = if st.zp < String.length st.zs then st.zs.[st.zp] else '\000'
+let znext st = let c = zpeek st in st.zp <- st.zp + 1; c
+let zexpect st c = if znext st <> c then failwith (Printf.sprintf "parse: expected %c at %d in %s" c (st.zp - 1) st.zs)
+let zdigits st =
+  let b = st.zp in
+  while (match zpeek st with '0' .. '9' -> true | _ -> false) do st.zp <- st.zp + 1 done;
+  String.sub st.zs b (st.zp - b)
+let zhexrun st =
+  let b = st.zp in
+  while (match zpeek st with '0' .. '9' | 'a' .. 'f' -> true | _ -> false) do st.zp <- st.zp + 1 done;
+  bytes_of_hex (String.sub st.zs b (st.zp - b))
+let rec zparse_ty st : ty =
+  match znext st with
+  | 'L' -> let k = zn_of_dec (zdigits st) in zexpect st '.'; let fl = zn_of_dec (zdigits st) in TLeaf (k, fl)
+  | 'A' -> let fl = zn_of_dec (zdigits st) in zexpect st '('; let e = zparse_ty st in zexpect st ')'; TArr (fl, e)
+  | 'S' -> let fl = zn_of_dec (zdigits st) in zexpect st '('; let e = zparse_ty st in zexpect st ')'; TSlice (fl, e)
+  | 'P' -> let fl = zn_of_dec (zdigits st) in zexpect st '('; let e = zparse_ty st in zexpect st ')'; TPtr (fl, e)
+  | 'M' -> let fl = zn_of_dec (zdigits st) in zexpect st '('; let k = zparse_ty st in zexpect st ','; let e = zparse_ty st in zexpect st ')'; TMap (fl, k, e)
+  | 'T' ->
+    let fl = zn_of_dec (zdigits st) in
+    zexpect st '(';
+    let fs = ref [] in
+    if zpeek st = ')' then ignore (znext st)
+    else begin
+      let continue = ref true in
+      while !continue do
+        let e = znext st = '1' in
+        zexpect st ':';
+        let name = zhexrun st in
+        zexpect st ':';
+        let tag = zhexrun st in
+        zexpect st ':';
+        let t = zparse_ty st in
+        fs := ({ f_exported = e; f_name = name; f_tag = tag }, t) :: !fs;
+        (match znext st with ';' -> () | ')' -> continue := false | _ -> failwith "parse: struct")
+      done
+    end;
+    TStruct (fl, List.rev !fs)
+  | 'R' -> TRec (nat_of_int (int_of_string (zdigits st)))
+  | c -> failwith (Printf.sprintf "parse: type %c" c)
+let zparse_list st (item : zst -> 'a) : 'a list =
+  zexpect st '(';
+  if zpeek st = ')' then (ignore (znext st); [])
+  else begin
+    let acc = ref [] in
+    let continue = ref true in
+    while !continue do
+      acc := item st :: !acc;
+      (match znext st with ',' -> () | ')' -> continue := false | _ -> failwith "parse: list")
+    done;
+    List.rev !acc
+  end
+let rec zparse_val st : value =
+  match znext st with
+  | 'n' -> VNil
+  | 'b' -> VBool (znext st = '1')
+  | 'i' ->
+    if zpeek st = '-' then (ignore (znext st); VInt (Z.opp (Z.of_N (zn_of_dec (zdigits st)))))
+    else VInt (Z.of_N (zn_of_dec (zdigits st)))
+  | 'u' -> VUint (zn_of_dec (zdigits st))
+  | 'f' -> VFloat (zn_of_dec (zdigits st))
+  | 'c' -> let re = zn_of_dec (zdigits st) in zexpect st '_'; let im = zn_of_dec (zdigits st) in VComplex (re, im)
+  | 's' -> let b = zhexrun st in zexpect st '.'; VStr b
+  | 'o' -> VOpaque
+  | 'z' -> VNilRef
+  | 'y' -> let b = zhexrun st in zexpect st '.'; VBytes b
+  | 'q' -> VSeq (zparse_list st zparse_val)
+  | 'p' -> zexpect st '('; let v = zparse_val st in zexpect st ')'; VPtr v
+  | 'm' -> VMap (zparse_list st (fun st -> let k = zparse_val st in zexpect st ':'; let v = zparse_val st in (k, v)))
+  | 't' -> VStruct (zparse_list st zparse_val)
+  | 'd' -> VTime (zn_of_dec (zdigits st))
+  | 'I' -> zexpect st '('; let d = zparse_ty st in zexpect st '|'; let v = zparse_val st in zexpect st ')'; VIface (d, v)
+  | c -> failwith (Printf.sprintf "parse: value %c" c)
+let zty_of_string s = let st = { zs = s; zp = 0 } in let t = zparse_ty st in if st.zp <> String.length s then failwith "parse: trailing"; t
+let zval_of_string s = let st = { zs = s; zp = 0 } in let v = zparse_val st in if st.zp <> String.length s then failwith "parse: trailing"; v
+
+
+(* ---- values of WriteProgM (C13): s<hex> | b<hex> | j<jval>,
+   jval ::= T<hex> | S<hex> | Q<hex> | B<hex> | A(j,...) | O(<hexname>:j,...) | F *)
+let rec wparse_j st : jval =
+  match znext st with
+  | 'T' -> JText (zhexrun st)
+  | 'S' -> JStr (zhexrun st)
+  | 'Q' -> JTime (zhexrun st)
+  | 'B' -> JBytes (zhexrun st)
+  | 'A' -> JSeq (zparse_list st wparse_j)
+  | 'O' -> JObj (zparse_list st (fun st -> let name = zhexrun st in zexpect st ':'; let v = wparse_j st in (name, v)))
+  | 'F' -> JFail
+  | c -> failwith (Printf.sprintf "parse: jval %c" c)
+let wsval_of_string (s : string) : sval =
+  let st = { zs = s; zp = 0 } in
+  let v = (match znext st with
+    | 's' -> SvStr (zhexrun st)
+    | 'b' -> SvBytes (zhexrun st)
+    | 'j' -> SvJ (wparse_j st)
+    | c -> failwith (Printf.sprintf "parse: sval %c" c)) in
+  if st.zp <> String.length s then failwith "parse: trailing"; v
+
+
+(* ---- one URL attribute (C07): items T:<hex> / S:<hex> separated by ';' *)
+let uparse_items (s : string) : item list =
+  List.map (fun e -> match String.split_on_char ':' e with
+    | ["T"; h] -> UText (bytes_of_hex h)
+    | ["S"; h] -> UShow (bytes_of_hex h)
+    | _ -> failwith ("bad item " ^ e)) (split ';' s)
+let ucanon (u : url) : string =
+  let pairs = List.filter (fun (k, v) -> not (k = [] && v = None)) (match u.u_query with Some l -> l | None -> []) in
+  let ps = List.map (fun (k, v) -> hex_of_bytes k ^ ":" ^ (match v with Some x -> "x" ^ hex_of_bytes x | None -> "-")) pairs in
+  "path=x" ^ hex_of_bytes u.u_path ^ " query=" ^ (if ps = [] then "-" else String.concat "," ps)
+  ^ " frag=" ^ (match u.u_frag with Some (_ :: _ as f) -> "x" ^ hex_of_bytes f | _ -> "-")
+
 let handle (f : string list) : string =
   match f with
   | ["rend"; fail_at; ops] ->
@@ -124,6 +248,38 @@ let handle (f : string list) : string =
      | RRNil -> "nil" | RRPanicError -> "panic" | RROutError _ -> "out" | RRCtx -> "ctx" | RRStop _ -> "stop"
      | RRError _ -> "error" | RRHostPanicFatal false -> "fatal:passed" | RRHostPanicFatal true -> "fatal:wrapped"
      | RRHostPanicGo -> "gopanic" | RRStuck -> "stuck")
+  | ["show"; ctx; url; conv; ty; v] ->
+    (match int_of_n (show_class (conv = "1") (zn_of_dec ctx) (url = "1") (zty_of_string ty) (zval_of_string v)) with
+     | 0 -> "ok" | 1 -> "cannotshow" | 2 -> "panic" | 3 -> "stuck" | _ -> "illtyped")
+  | ["wp"; _; fail_at; ctx; v] ->
+    let w = writer_of (int_of_string fail_at) in
+    let c = zn_of_dec ctx and x = wsval_of_string v in
+    (match show_prog c x, show_view c x with
+     | Some p, Some view ->
+       let (ws, r) = p w w0 in
+       (* the program and the early-exit run of its calls agree (theorem show_prog_view): evaluated here too *)
+       let (ws2, r2) = run_shown view w w0 in
+       if ws.w_calls <> ws2.w_calls || ws.w_out <> ws2.w_out || r <> r2 then "program-and-view-differ"
+       else "calls=" ^ string_of_int (int_of_n ws.w_calls) ^ " out=" ^ chunks_s ws.w_out ^ " res=" ^ res_s r
+     | _, _ -> "unmodelled")
+  | ["urlattr"; q; its] ->
+    let items = uparse_items its in
+    let ctx = n_of_int (if q = "1" then 135 else 136) in
+    let w = writer_of 0 in
+    (* the operations of the attribute on the operational model, and the rule of the query position *)
+    let rec go st ws before items qpos =
+      match items with
+      | [] -> (ws, qpos)
+      | it :: r ->
+        let o = (match it with
+          | UText t -> OText (t, true, false)
+          | UShow s -> OShow (ctx, { sv_chunks = []; sv_err = None; sv_url = Some s })) in
+        let qpos' = (match it with UShow _ -> qpos ^ (if query_position (List.rev before) then "1" else "0") | UText _ -> qpos) in
+        let ((st', ws'), x) = r_op w st ws o in
+        if x <> ROk then failwith "operation failed" else go st' ws' (it :: before) r qpos' in
+    let (ws, qpos) = go r0 w0 [] items "" in
+    let out = List.concat ws.w_out in
+    "out=x" ^ hex_of_bytes out ^ " qpos=" ^ qpos ^ " url=" ^ ucanon (url_ref_decode out)
   | ["pathEscape"; q; h] -> script_s (pathEscape (b01 q) (bytes_of_hex h))
   | ["queryEscape"; h] -> script_s (queryEscape (bytes_of_hex h))
   | ["pe_q"; h] -> "ok:" ^ hex_of_bytes (path_escape_quoted_bytes (bytes_of_hex h))
